@@ -4235,8 +4235,12 @@ class EntityMeta(type):
         query_attrs = {attr: value is None for attr, value in avdict.items()}
         limit = 2 if not unique else None
         sql, adapter, attr_offsets = entity._construct_sql_(query_attrs, False, limit, for_update, nowait, skip_locked)
+        cache = database._get_cache()
+        if for_update: cache.immediate = True
+        # flush before the arguments are calculated: a value can be a new object
+        # which receives its auto-generated primary key during flush
+        cache.prepare_connection_for_query_execution()
         arguments = adapter(avdict)
-        if for_update: database._get_cache().immediate = True
         cursor = database._exec_sql(sql, arguments)
         objects = entity._fetch_objects(cursor, attr_offsets, 1, for_update, avdict)
         return objects[0] if objects else None
